@@ -589,3 +589,61 @@ package evaluator
 // errors can be formatted (C03): struct invariants established where the error is built
 //@ typeinv stringConversionError: self.err != nil
 //@ typeinv unexpectedOperationError: self.op != nil
+
+// ---------------------------------------------------------------------------
+// string search (C03, C09, C11): offsets are converted from code points to bytes by walking the text;
+// the walk stays inside the string and on code-point boundaries, and the result is a code-point count
+
+//@ func findFirstBetween
+//@   tags C03 C09 C11 C02 C06
+//@   ensures[C11 C02] count: result1 == nil && result0 != nil ==> isInt(result0) && kind(result0) == 4 && 0 <= intv(result0) && intv(result0) <= runes(str(value))
+//@   ensures failure: result1 != nil ==> result0 == nil
+//@   loop 1
+//@     invariant 0 <= j && j <= i && 0 <= n && n <= len(s) && i <= len(s) && s == str(value0) && isbound(s, lo(s) + n)
+//@     decreases i - j
+//@     bound len(str(value0))
+//@   loop 2
+//@     invariant 0 <= k && k <= j && 0 <= n && n <= len(s) && j <= len(s) && s == str(value0) && 0 <= i && i <= len(s) && isbound(s, lo(s) + n) && isbound(s, lo(s) + i)
+//@     decreases j - k
+//@     bound len(str(value0))
+
+//@ func findLastBetween
+//@   tags C03 C09 C11 C02 C06
+//@   ensures[C11 C02] count: result1 == nil && result0 != nil ==> isInt(result0) && kind(result0) == 4 && 0 <= intv(result0) && intv(result0) <= runes(str(value))
+//@   ensures failure: result1 != nil ==> result0 == nil
+//@   loop 1
+//@     invariant 0 <= j && j <= i && 0 <= n && n <= len(s) && i <= len(s) && s == str(value0) && isbound(s, lo(s) + n)
+//@     decreases i - j
+//@     bound len(str(value0))
+//@   loop 2
+//@     invariant 0 <= k && k <= j && 0 <= n && n <= len(s) && j <= len(s) && s == str(value0) && 0 <= i && i <= len(s) && isbound(s, lo(s) + n) && isbound(s, lo(s) + i)
+//@     decreases j - k
+//@     bound len(str(value0))
+
+//@ func findFirstFrom
+//@   tags C03 C09 C11 C02 C06
+//@   ensures[C11 C02] count: result1 == nil && result0 != nil ==> isInt(result0) && kind(result0) == 4 && 0 <= intv(result0) && intv(result0) <= runes(str(value))
+//@   ensures failure: result1 != nil ==> result0 == nil
+//@   loop 1
+//@     invariant 0 <= j && j <= i && 0 <= n && n <= len(s) && i <= len(s) && s == str(value0) && isbound(s, lo(s) + n)
+//@     decreases i - j
+//@     bound len(str(value0))
+
+//@ func findLastFrom
+//@   tags C03 C09 C11 C02 C06
+//@   ensures[C11 C02] count: result1 == nil && result0 != nil ==> isInt(result0) && kind(result0) == 4 && 0 <= intv(result0) && intv(result0) <= runes(str(value))
+//@   ensures failure: result1 != nil ==> result0 == nil
+//@   loop 1
+//@     invariant 0 <= j && j <= i && 0 <= n && n <= len(s) && i <= len(s) && s == str(value0) && isbound(s, lo(s) + n)
+//@     decreases i - j
+//@     bound len(str(value0))
+
+//@ func findFirst
+//@   tags C03 C11 C02 C06
+//@   ensures[C11 C02] count: result1 == nil && result0 != nil ==> isInt(result0) && kind(result0) == 4 && 0 <= intv(result0) && intv(result0) <= runes(str(value))
+//@   ensures failure: result1 != nil ==> result0 == nil
+
+//@ func findLast
+//@   tags C03 C11 C02 C06
+//@   ensures[C11 C02] count: result1 == nil && result0 != nil ==> isInt(result0) && kind(result0) == 4 && 0 <= intv(result0) && intv(result0) <= runes(str(value))
+//@   ensures failure: result1 != nil ==> result0 == nil
